@@ -283,6 +283,29 @@ CHECKS = {
     ),
 }
 
+# dimensions added in the statement-literal round (DESIGN.md 11.3b), appended to the level text
+ADDENDA = {
+    "C02": "The tree's path is spelled plainly, with './', absolutely, with a trailing '/', through '..' and as 'tree/../tree'; one naming scheme lets "
+           "names recur in different directories (a link's text can equal another member's path).",
+    "C03": "A forced interleaving of two folder workers (one held between its check of a directory and its use, the other creating the links that "
+           "lead it outside) is part of the quick tier.",
+    "C04": "One sample archive holds a symbolic-link member and is extracted into a directory, judged by link targets.",
+    "C05": "Compound attacks include a file count admitted by zero padding behind the header's END mark (open known finding).",
+    "C06": "The reference writer also emits partially defined packed-stream CRC vectors.",
+    "C07": "Nothing may follow the end header the start header points at.",
+    "C09": "Absent names include string prefixes of member names and the empty string; the recursive flag is passed as False/None/0 and True/1; "
+           "decoding calls follow one another without reset() (ReadSession.ExtractResets, negative control).",
+    "C10": "Archives with partially defined time vectors and FILETIMEs beyond the year 9999: the listed time of every member is judged.",
+    "C13": "Error classes: damaged data, unwritable output (Parallel.FailLast), a worker process that dies; the process option also with a "
+           "WriterFactory; an archive opened by a relative name followed by chdir.",
+    "C14": "Every crash image is also handed to an append session (mode 'a' + one member + close): refused, or old/new members plus its own.",
+    "C15": "Rejected arguments: climbing or absolute name, wrong content type, wrong name type, text stream, a name UTF-16 cannot hold, an embedded NUL.",
+    "C16": "Traversal shapes are also spelled with backslashes (a separator in the 7z name table); source files whose names hold backslashes.",
+    "C18": "Extractions without a callback between those with one; the process option with a callback.",
+    "C19": "'a' on a header-damaged archive (must fail and leave it untouched); 'c -v 200b' on 400 KB (delegated library, known finding).",
+    "C20": "Several folders decoded at the same time; a member flagged as a symbolic link; an encoded header padded to 512 MiB (open known finding).",
+}
+
 NOT_YET = {}  # id -> reason; filled below for every property without a check
 
 
@@ -300,7 +323,7 @@ def main():
             "evidence_file": f"/verif/evidence/{i}.json",
             "replay_cmd_template": f"./check {i} quick --replay {{path}}",
             "engine": "tlc",
-            "level_claimed": {"category": c["level"], "text": c["text"], "design_ref": "DESIGN.md section " + c["design_ref"]},
+            "level_claimed": {"category": c["level"], "text": c["text"] + (" " + ADDENDA[i] if i in ADDENDA else ""), "design_ref": "DESIGN.md section " + c["design_ref"]},
             "level_note": c["note"],
             "technique": c["technique"],
         }
